@@ -12,7 +12,8 @@ LEVEL_TEXT = ("On the Lean mirror the two flavours are proved to run the same pr
 LEVEL_NOTE = ("Trusted: Lean kernel, standard axioms; the mirror (one Forest.lean for both flavours with a flavour switch). Only "
               "flavour-dependent differences count here: a defect present in both copies is reported by C01-C03/C16, not by C18. "
               "Non-node arguments are excluded (the property quantifies over tree-node arguments); LightNodeMixin has no 'anchestors' "
-              "typo alias.")
+              "typo alias."
+              " Histories with a hook that detaches another node while a call is in progress are run in lock-step on both flavours as well (outside the model: searched, not proved).")
 THEOREMS = [
     ("Anytree.Props.C18.setParent_flavor", "full"),
     ("Anytree.Props.C18.delChildren_flavor", "full"),
@@ -46,6 +47,14 @@ def generate(tier, rng):
             if rng.random() < 0.3:
                 c["ops"][-1] = dict(call, faults={"at": [rng.randrange(0, 8)]})
             yield c
+    for _ in range(120 if tier == "quick" else 1500):
+        # classes that override the public `parent` attribute and refuse to move pinned nodes: every detach/attach either
+        # flavour performs - also inside `del children` and the children setter with its restore - goes through it
+        n0 = rng.randrange(4, 8)
+        ops = fc.random_history(rng, n0, rng.randrange(3, 11 if tier == "quick" else 20), nonnode=False)
+        yield {"fam": "lockstep", "asrt": False, "n0": n0, "ops": ops, "nmcls": "pinmixin",
+               "pinned": rng.sample(range(n0), rng.choice([1, 1, 2])), "pin_after": len(ops) // 2,
+               "params": _params(rng, n0 + 3)}
     for n0, ops in fc.reentrant_histories(rng, tier):
         # hooks that detach another node while a call is in progress: both flavours must still behave alike
         yield {"fam": "lockstep", "asrt": False, "n0": n0, "ops": ops, "nmcls": rng.choice(["mixin", "node", "anynode", "eqmixin", "falsymixin"]),
